@@ -55,3 +55,14 @@ PROPS = {
 }
 
 NOT_APPLICABLE = {}
+
+# entries contributed by work packages (bin/mergewp writes them): bin/props.d/<id>.json
+import glob as _glob, json as _json, os as _os
+for _f in sorted(_glob.glob(_os.path.join(_os.path.dirname(_os.path.abspath(__file__)), 'props.d', '*.json'))):
+    _d = _json.load(open(_f))
+    for _k in ('classes',):
+        if _k in _d:
+            _d[_k] = {int(a): b for a, b in _d[_k].items()}
+    for _r in _d.get('runs', []):
+        _r['classes'] = {int(a): b for a, b in _r['classes'].items()}
+    PROPS[_os.path.basename(_f)[:-5]] = _d
